@@ -593,17 +593,17 @@ Proof.
   apply tsm_fuel_enough; auto; lia.
 Qed.
 
-(* C05_md_ignored: the `.md` suffix does not change the key *)
-Theorem key_md_ignored x : key_from_file_name (x ++ MD) = key_from_file_name x.
-Proof.
-  unfold key_from_file_name, trim_end_matches. rewrite srev_append.
-  rewrite trim_start_matches_step; [reflexivity|]. reflexivity.
-Qed.
+(* C05_md_ignored: ONE `.md` suffix is taken off, whatever is in front of it (`x.md.md` names the note `x.md`) *)
+Theorem key_md_ignored x : key_from_file_name (x ++ MD) = x.
+Proof. apply strip_md_app. Qed.
 
-Theorem rel_link_md_ignored u d : from_rel_link_url (u ++ MD) d = from_rel_link_url u d.
-Proof.
-  unfold from_rel_link_url. f_equal. exact (key_md_ignored u).
-Qed.
+Theorem rel_link_md_ignored u d : from_rel_link_url (u ++ MD) d = join_normalized d u.
+Proof. unfold from_rel_link_url. f_equal. apply strip_md_app. Qed.
+
+(* ... and a name without the suffix is taken as it is: with or without its extension a url names one note *)
+Theorem key_md_absent x d :
+  ends_with MD x = false -> key_from_file_name x = x /\ from_rel_link_url x d = join_normalized d x.
+Proof. intros H. unfold key_from_file_name, from_rel_link_url. now rewrite strip_md_none. Qed.
 
 Local Open Scope list_scope.     (* ... to here *)
 
@@ -615,9 +615,9 @@ Theorem block_reference_key dir f lr url title lt ils st :
   (do st' <- add_node st (KRef (from_rel_link_url url dir) (inlines_plain_text ils) lt); Ok (set_lines_range st' lr)).
 Proof. intros H. cbn. rewrite H. reflexivity. Qed.
 
-(* ... and an inline link's key is the url without the directory *)
+(* ... and an inline link's key is the url (as the reader left it) without the directory *)
 Theorem inline_key_no_directory url title lt ils :
-  ref_keys [Link url title lt ils] = [key_from_file_name url].
+  ref_keys [Link url title lt ils] = [key_name url].
 Proof. reflexivity. Qed.
 
 (* ---------- refutations of the as-found code ------------------------------------------------------------------ *)
